@@ -448,12 +448,16 @@ impl LockFreeMemoryPool {
                 // Empty bin, need to allocate new memory
                 return self.allocate_new_block(size);
             }
+            #[cfg(feature = "zipora_verif")]
+            crate::verif_hooks::sched_point(201);
 
             // Load next pointer from current head
             let next_offset = unsafe {
                 let current_ptr = self.offset_to_ptr(current_offset)?;
                 *(current_ptr.as_ptr() as *const u32)
             };
+            #[cfg(feature = "zipora_verif")]
+            crate::verif_hooks::sched_point(202);
 
             // ABA-SAFE: Pack next offset with INCREMENTED generation counter
             // This prevents ABA: even if offset A→B→A, generation won't match
@@ -506,12 +510,16 @@ impl LockFreeMemoryPool {
             // ABA-SAFE: Load packed value (offset + generation)
             let packed = bin.head.load(Ordering::Acquire);
             let (current_offset, current_gen) = Self::unpack_head(packed);
+            #[cfg(feature = "zipora_verif")]
+            crate::verif_hooks::sched_point(211);
 
             // Store current OFFSET (not packed value) as next pointer in the block
             // The next pointer only needs the offset, not the generation counter
             unsafe {
                 *(ptr.as_ptr() as *mut u32) = current_offset;
             }
+            #[cfg(feature = "zipora_verif")]
+            crate::verif_hooks::sched_point(212);
 
             // ABA-SAFE: Pack new offset with INCREMENTED generation counter
             let new_packed = Self::pack_head(offset, current_gen.wrapping_add(1));
